@@ -305,6 +305,9 @@ func concSearch(args []string) int {
 		if round%3 == 1 { // a database with one record nothing can be searched by
 			corpus = "mixblank"
 		}
+		if round%6 == 3 || round%6 == 0 && round > 0 { // ... with an embedding index attached: the semantic stage runs in every search
+			corpus = "sem"
+		}
 		c := getCorpus(corpus)
 		mkOpts := func() []database.SearchOptions {
 			return []database.SearchOptions{{Limit: 5}, {Limit: 3, UseNLP: true}, {Limit: 7, UseFuzzy: true, UseNLP: true, FuzzyThreshold: -30},
